@@ -13,6 +13,7 @@ import PymaVerif.Model.Validate
 import PymaVerif.Model.Kpm
 import PymaVerif.Model.Taylor
 import PymaVerif.Model.Formats
+import PymaVerif.Model.Index
 
 open Lean Pyma Pyma.Dsl Pyma.BlockDiag
 
@@ -577,6 +578,42 @@ def runTaylor (j : Json) : Except String String := do
   pure (String.intercalate "|" (idxs.map fun n => showRat (Pyma.Taylor.term c n)))
 end TaylorCmd
 
+/-! ## `index`: `BlockSeries.__getitem__` item resolution (NumPy rules + trial array) -/
+namespace IndexCmd
+open Pyma.Index
+def optInt (j : Json) : Except String (Option Int) := match j with
+  | .null => pure none
+  | _ => do pure (some (← j.getInt?))
+def parseAx (j : Json) : Except String Ax := do
+  match j.getObjVal? "int" with
+  | .ok v => pure (.int (← v.getInt?))
+  | _ => match j.getObjVal? "list" with
+    | .ok (.arr a) => pure (.list (← a.toList.mapM fun e => e.getInt?))
+    | _ => match j.getObjVal? "slice" with
+      | .ok (.arr a) =>
+          match a.toList with
+          | [x, y, z] => do
+              let st ← optInt z
+              pure (.slice (← optInt x) (← optInt y) (match st with | none => 1 | some v => v.toNat))
+          | _ => throw "slice: three entries expected"
+      | _ => throw "index entry: int, list or slice expected"
+def showIdx (l : List Nat) : String := String.intercalate "," (l.map toString)
+def showErr : Pyma.Index.Err → String | .index => "err index" | .other => "err other"
+def runIndex (j : Json) : Except String String := do
+  let shape ← natList (← getArr j "shape")
+  let item ← (← getArr j "item").toList.mapM parseAx
+  match j.getObjVal? "dense" with
+  | .ok (.arr d) =>                       -- plain NumPy indexing of an array of the given dimensions
+      match select (← natList d) item with
+      | .ok r => pure s!"ok {showIdx r.shape}|{String.intercalate ";" (r.sources.map showIdx)}"
+      | .error e => pure (showErr e)
+  | _ =>
+    let ninf ← j.getObjValAs? Nat "ninf"
+    match getitem shape ninf item with
+    | .ok r => pure s!"ok {showIdx r.shape}|{String.intercalate ";" (r.sources.map showIdx)}|{String.intercalate ";" (r.evaluated.map showIdx)}"
+    | .error e => pure (showErr e)
+end IndexCmd
+
 partial def loop (h : IO.FS.Stream) : IO Unit := do
   let line ← h.getLine
   if line.isEmpty then return ()
@@ -604,6 +641,10 @@ partial def loop (h : IO.FS.Stream) : IO Unit := do
     | .ok "prog" =>
       match ProgCmd.runProg j with
       | .ok ls => IO.println (String.intercalate "|" ls)
+      | .error e => IO.println s!"bad-request {e}"
+    | .ok "index" =>
+      match IndexCmd.runIndex j with
+      | .ok l => IO.println l
       | .error e => IO.println s!"bad-request {e}"
     | .ok "keys" =>
       match KeysCmd.runKeys j with
